@@ -186,6 +186,15 @@ def _collect(ctx, path, g, text, res):
     if res.status in ('ok', 'failed'):
         if canary is None or canary['success']:
             raise Undecided('canary obligation `ensures false` did not fail in %s: prelude inconsistent or verifier not checking' % path)
+    # functions whose body contains a loop: Verus needs an inductive invariant there, which nobody wrote for generated code, so a
+    # failed obligation of such a function says nothing about the property -> undecided (the Kani fallback then stands in)
+    src_lines = text.splitlines()
+    loop_re = re.compile(r'\bwhile\b|\bloop\s*\{|\bfor\s+[^;{]+\s+in\b')
+    has_loop = set()
+    for b, e, ident in ranges:
+        body = '\n'.join(l for l in src_lines[b:e] if not l.strip().startswith('//') and '// @@' not in l)
+        if loop_re.search(body):
+            has_loop.add((mod_at.get(b), ident))
     by_fn = {}
     unattributed = []
     for e in res.errors:
@@ -231,7 +240,10 @@ def _collect(ctx, path, g, text, res):
                             kinds.append(k)
                     o.kinds = sorted(set(kinds))
                     o.detail = '\n'.join(e['text'] for e in errs)
-                    if any(k == 'rlimit' for k in kinds) or not errs:
+                    if (modname, ident) in has_loop:
+                        o.status = 'undecided'
+                        o.detail = 'verus status=error (loop)\nthe generated function contains a loop; no inductive invariant is available for generated code\n' + o.detail
+                    elif any(k == 'rlimit' for k in kinds) or not errs:
                         o.status = 'undecided'
                         if not errs:
                             o.detail = 'verus reports failure without a diagnostic for this function'
